@@ -84,6 +84,12 @@ ObjectsR == { OC,
               Object("O", { PropR("p", IntU, FALSE, FALSE, FALSE, {}, {}, {"q"}),       \* p required when q is not set
                             Prop("q", Str, FALSE) }, FALSE) }
 
+\* display shapes of the required property p (and of the optional q): with a producer that lacks p the
+\* rejection has to come out for every shape
+ObjectsD == {Object("O", {PropD("p", IntU, TRUE, d), Prop("q", Str, FALSE)}, FALSE) : d \in DisplayShapes \ {"none"}}
+            \cup {Object("O", {Prop("p", IntU, TRUE), PropD("q", Str, FALSE, "desc")}, FALSE)}
+ObjectsD2 == {Object("O", {PropD("p", IntU, TRUE, d), Prop("q", Str, FALSE)}, FALSE) : d \in {"name", "desc"}}
+
 Objects == { O0,
              Object("P", P0, FALSE),                                                   \* another ID
              Object("P", P0, TRUE),                                                    \* another ID, not enforced
@@ -104,7 +110,7 @@ Objects == { O0,
              Object("O", P0 \cup {PropX("r", BoolS, FALSE, FALSE, TRUE)}, FALSE),                \* one optional disabled property more
              Object("O", {PropX("p", IntU, TRUE, FALSE, TRUE), Prop("q", Str, FALSE)}, FALSE),   \* p disabled
              OM, OT }                                                                  \* O0 struct-mapped / as a typed object
-             \cup ObjectsR
+             \cup ObjectsR \cup ObjectsD
 
 \* one-ofs: X0 and its single-feature mutations
 MA == Object("MA", {Prop("x", IntU, TRUE)}, FALSE)
@@ -140,6 +146,7 @@ S0 == Scope("O", {SR(Ref("C")), SC(Str, TRUE)})
 SM == Scope("O", { ObjectI("O", {Prop("p", IntU, TRUE), Prop("c", Ref("C"), FALSE)}, FALSE, "mapped"),
                    ObjectI("C", {Prop("x", Str, TRUE)}, FALSE, "mapped") })
 Scopes == { S0, SM, SXI("kind"), SXI("type"),
+            Scope("O", {SR(Ref("C")), Object("C", {PropD("x", Str, TRUE, "icon")}, FALSE)}),  \* x documented by an icon only
             Scope("O", {SR(Ref("C")),                                                  \* referenced object's fields conflict
                         Object("C", { PropR("x", Str, FALSE, FALSE, FALSE, {"y"}, {}, {}),
                                       PropR("y", BoolS, FALSE, FALSE, FALSE, {"x"}, {}, {}) }, FALSE)}),
@@ -171,7 +178,7 @@ U0 == Universe(BoundsOf(MinVals, MaxVals), EnumSets, BoundsOf(MinVals3, MaxVals3
 U3 == Scalars(BoundsOf(MinVals3, MaxVals3)) \cup UnitScalars3 \cup Lists(BoundsOf(MinVals3, MaxVals3))
       \cup Maps(BoundsOf(MinVals3, MaxVals3)) \cup TLists(BoundsOf(MinVals3, MaxVals3))
       \cup TMaps(BoundsOf(MinVals3, MaxVals3)) \cup Enums(EnumSets3) \cup RuneEnums \cup Simple
-      \cup (Objects \ (ObjectsR \ {OC})) \cup (OneOfs \ (OneOfsI \ {XI("string", "kind"), XI("string", "type")}))
+      \cup (Objects \ ((ObjectsR \ {OC}) \cup (ObjectsD \ ObjectsD2))) \cup (OneOfs \ (OneOfsI \ {XI("string", "kind"), XI("string", "type")}))
       \cup {S0, SM, Rec1(IntU), Rec1(Str)}
 
 \* one representative per family, compared across families below the wrappers
@@ -227,10 +234,10 @@ Pick(a, b) == \E m \in Modes(a, b) : \E h \in Hists(a, b, m) : v = Case(a, b, m,
 \* conflicting fields, of the inlining one-ofs those whose members declare both candidate fields
 Ext(s) == \/ s.kind \in {"list", "map"} /\ s.impl = "typed"
           \/ s.kind \in {"int", "float"} /\ s.units # "none"
-          \/ s \in ObjectsR \cup OneOfsI \cup RuneEnums
+          \/ s \in ObjectsR \cup ObjectsD \cup OneOfsI \cup RuneEnums
 Deep2(s) == /\ (s.kind = "list" /\ s.impl = "typed") => <<s.min, s.max>> \in BoundsOf(MinVals3, MaxVals3)
             /\ (s.kind \in {"int", "float"} /\ s.units # "none") => s \in UnitScalars3
-            /\ s \notin (ObjectsR \ {OC}) \cup {XJ("string", f) : f \in {"kind", "type"}}
+            /\ s \notin (ObjectsR \ {OC}) \cup (ObjectsD \ ObjectsD2) \cup {XJ("string", f) : f \in {"kind", "type"}}
 
 Init ==
     \/ \E s \in U0 : \E t \in U0 :
